@@ -19,6 +19,20 @@
 //!   c08-attempts      at most 1 + 10 calls per batch
 //!   c08-once          every callback runs at most once; none is left unfired when the receiver returns
 //!   c08-backoff       retry waits within a batch are non-decreasing and ≤ 10 s
+//!   c09-count         queue_full_truncated moves only in a plain `send` that found the queue full (by one);
+//!                     queue_full_blocked moves only in a blocking / async send whose first attempt failed (by one)
+//!   cNN-hang          the channel wedged: an op (or a callback / closure the receiver invoked) never returned
+//!
+//! WATCHDOG. Every case is interpreted on a fresh helper thread (`guard::run`): a callback that re-enters the
+//! channel while the implementation holds its state lock dead-locks that thread, not the harness. The verdict is
+//! positive, not a guess: the helper is blocked in the kernel (`/proc/self/task/<tid>/stat` state `S`) for ≥ 80 ms
+//! over ≥ 8 consecutive polls while it is not in a wait of its own; a hard limit (10 s; 1 s once a hang has been
+//! seen in this process) is the fallback. The case then prints the tokens it got to, `hang|-/-/-`, `x` for the ops
+//! that could not be run, `F:hung`, and fails the oracles `c06-hang+c07-hang+c08-hang+c09-hang`.
+//! The GENERATOR interprets the schedule it is building on the real code too (to keep receiver ops enabled); it
+//! runs under the same watchdog: a schedule that wedges is emitted as it stands (ops up to and including the one
+//! that never returned — the reproducer), and after two such schedules the generator stops executing the
+//! implementation and draws the remaining schedules blindly.
 
 use emit_batcher::{BatchError, ChannelMetrics, Receiver, Sender};
 use hcommon::{Rng, Sexp, Stream, Tier};
@@ -50,19 +64,25 @@ struct Proj {
     events: &'static str,
     tags: bool,
     queue: bool,
+    /// keep the third component of the `|queue_length/truncated/blocked` suffix
+    blocked: bool,
     counters: bool,
     oracles: &'static [&'static str],
 }
 
-const FULL: Proj = Proj { events: "!?~cwdP+", tags: true, queue: true, counters: true, oracles: &["c0", "receiver"] };
+#[allow(dead_code)]
+const FULL: Proj =
+    Proj { events: "!?~cwdP+", tags: true, queue: true, blocked: true, counters: true, oracles: &["c0", "receiver"] };
 /// C06: every on_batch argument, the send / try_send results, queue length + truncation counter, termination
-const P06: Proj = Proj { events: "cdP+", tags: true, queue: true, counters: false, oracles: &["c06"] };
+const P06: Proj = Proj { events: "cdP+", tags: true, queue: true, blocked: false, counters: false, oracles: &["c06"] };
 /// C07: when each flush callback ran (or was dropped) relative to the on_batch calls and their outcomes
-const P07: Proj = Proj { events: "!~cP", tags: false, queue: false, counters: false, oracles: &["c07"] };
+const P07: Proj = Proj { events: "!~cP", tags: false, queue: false, blocked: false, counters: false, oracles: &["c07"] };
 /// C08: calls, wait durations, every callback invocation, termination, the batch counters
-const P08: Proj = Proj { events: "!?~cwdP", tags: false, queue: false, counters: true, oracles: &["c08", "receiver"] };
-/// C09: the queue length and truncation counter after every operation, the try_send results
-const P09: Proj = Proj { events: "+", tags: true, queue: true, counters: false, oracles: &["c09"] };
+const P08: Proj =
+    Proj { events: "!?~cwdP", tags: false, queue: false, blocked: false, counters: true, oracles: &["c08", "receiver"] };
+/// C09: the queue length, the truncation counter and the blocked counter after every operation (and inside
+/// callbacks / windows: `+q=…`), the try_send / blocking-send results
+const P09: Proj = Proj { events: "+", tags: true, queue: true, blocked: true, counters: false, oracles: &["c09"] };
 
 fn project(full: &str, p: &Proj) -> String {
     let (trace, fails) = match full.split_once('\t') {
@@ -98,7 +118,11 @@ fn project(full: &str, p: &Proj) -> String {
         }
         if p.queue {
             t.push('|');
-            t.push_str(q);
+            if p.blocked {
+                t.push_str(q);
+            } else {
+                t.push_str(q.rsplit_once('/').map(|(qt, _)| qt).unwrap_or(q));
+            }
         }
         out.push(t);
     }
@@ -154,13 +178,43 @@ enum Op {
     /// channel it samples (a self-monitoring pipeline): sampling must not call out under the state lock
     SampleTry(u64),
     SampleSend(u64),
+    /// a blocking / async send with a ZERO timeout (`sync::blocking_send`, `tokio::blocking_send`, `tokio::send`
+    /// polled once): `send_or_wait` = one `try_send`, the `queue_full_blocked` accounting, the item handed back —
+    /// never a wait, so it can be scripted on the interpreter thread (also inside windows and callbacks)
+    Bsend(Bk, u64),
+    /// sample the channel's metrics right here (also inside windows and callbacks): `q=<len>/<truncated>/<blocked>`
+    Q,
+}
+
+#[derive(Clone, Copy, Debug, PartialEq)]
+enum Bk {
+    Sync,
+    Tokio,
+    Async,
+}
+impl Bk {
+    fn tag(self) -> &'static str {
+        match self {
+            Bk::Sync => "bs",
+            Bk::Tokio => "bt",
+            Bk::Async => "ba",
+        }
+    }
 }
 
 impl Op {
     fn sender_side(&self) -> bool {
         matches!(
             self,
-            Op::Send(_) | Op::Try(_) | Op::Flush(_) | Op::Empty(_) | Op::DropSender | Op::SampleTry(_) | Op::SampleSend(_)
+            Op::Send(_)
+                | Op::Try(_)
+                | Op::Flush(_)
+                | Op::Empty(_)
+                | Op::DropSender
+                | Op::SampleTry(_)
+                | Op::SampleSend(_)
+                | Op::Bsend(..)
+                | Op::Q
         )
     }
 }
@@ -172,6 +226,10 @@ fn parse_op(s: &Sexp) -> Option<Op> {
         ("m", 1) => Op::SampleTry(a[0].as_u64()?),
         ("ms", 1) => Op::SampleSend(a[0].as_u64()?),
         ("t", 1) => Op::Try(a[0].as_u64()?),
+        ("bs", 1) => Op::Bsend(Bk::Sync, a[0].as_u64()?),
+        ("bt", 1) => Op::Bsend(Bk::Tokio, a[0].as_u64()?),
+        ("ba", 1) => Op::Bsend(Bk::Async, a[0].as_u64()?),
+        ("q", 0) => Op::Q,
         ("f", 1) => Op::Flush(a[0].as_u64()?),
         ("e", 1) => Op::Empty(a[0].as_u64()?),
         ("ds", 0) => Op::DropSender,
@@ -289,9 +347,12 @@ enum Ev {
     // not printed: inputs of the oracle
     /// the on_batch closure panicked (scripted): the attempt is over
     SyncPanicked,
-    Sent { x: u64, q0: usize, t0: usize, q1: usize, t1: usize },
+    Sent { x: u64, q0: usize, t0: usize, q1: usize, t1: usize, b0: usize, b1: usize },
     TryOk(u64),
     TryFull { x: u64, y: u64 },
+    /// the counters (truncated, blocked) right before / after an op that is not a plain send; `bump` = the op is a
+    /// blocking send whose first attempt failed (the only thing that may move `queue_full_blocked`, by one)
+    Counters { t0: usize, b0: usize, t1: usize, b1: usize, bump: bool },
     RegFlush(u64),
     RegEmpty(u64),
     Outcome(Option<Vec<u64>>),
@@ -459,8 +520,11 @@ impl Oracle {
     }
     fn event(&mut self, e: &Ev) {
         match e {
-            Ev::Sent { x, q0, t0, q1, t1 } => {
+            Ev::Sent { x, q0, t0, q1, t1, b0, b1 } => {
                 let truncated = t1 != t0;
+                if b1 != b0 {
+                    self.fail("c09-count"); // a plain send never counts as blocked
+                }
                 if !truncated && *q0 >= self.cap {
                     self.fail("c09-newest");
                 }
@@ -488,6 +552,13 @@ impl Oracle {
             Ev::TryFull { x, y } => {
                 if x != y {
                     self.fail("c09-newest");
+                }
+            }
+            Ev::Counters { t0, b0, t1, b1, bump } => {
+                // only a plain send that finds the queue full truncates; only a blocking send that finds it
+                // full (or closed) counts as blocked
+                if t1 != t0 || *b1 != b0 + usize::from(*bump) {
+                    self.fail("c09-count");
                 }
             }
             Ev::RegFlush(w) => {
@@ -671,8 +742,7 @@ fn sender_op(core: &Rc<RefCell<Core>>, sh: &Shared, op: &Op) -> String {
             let is_try = matches!(op, Op::SampleTry(_));
             let (x, s2, sh2) = (*x, s.clone(), sh.clone());
             let m2 = s.metric_source();
-            let (tx, rx) = std::sync::mpsc::channel::<String>();
-            std::thread::spawn(move || {
+            let verdict = super::guard::run(move || {
                 use emit::metric::Source;
                 struct Emitting<F: Fn()>(std::cell::Cell<bool>, F);
                 impl<F: Fn()> emit::metric::sampler::Sampler for Emitting<F> {
@@ -684,7 +754,7 @@ fn sender_op(core: &Rc<RefCell<Core>>, sh: &Shared, op: &Op) -> String {
                 }
                 let tag = std::cell::RefCell::new(String::from("m=nocall"));
                 let before = sample(&m2);
-                let (q0, t0) = (before("queue_length"), before("queue_full_truncated"));
+                let (q0, t0, b0) = (before("queue_length"), before("queue_full_truncated"), before("queue_full_blocked"));
                 m2.sample_metrics(&Emitting(std::cell::Cell::new(false), || {
                     *tag.borrow_mut() = if is_try {
                         match s2.try_send(x) {
@@ -707,24 +777,17 @@ fn sender_op(core: &Rc<RefCell<Core>>, sh: &Shared, op: &Op) -> String {
                 }));
                 if !is_try {
                     let after = sample(&m2);
-                    let (q1, t1) = (after("queue_length"), after("queue_full_truncated"));
-                    log(&sh2, Ev::Sent { x, q0, t0, q1, t1 });
+                    let (q1, t1, b1) = (after("queue_length"), after("queue_full_truncated"), after("queue_full_blocked"));
+                    log(&sh2, Ev::Sent { x, q0, t0, q1, t1, b0, b1 });
                 }
                 drop(s2);
-                let _ = tx.send(tag.into_inner());
+                tag.into_inner()
             });
-            // 3 s for the first verdict; once a hang has been seen in this process the (already failing) run only
-            // needs to stay fast: later sampling ops get 50 ms
-            static SEEN_HANG: std::sync::atomic::AtomicBool = std::sync::atomic::AtomicBool::new(false);
-            let limit = if SEEN_HANG.load(std::sync::atomic::Ordering::SeqCst) {
-                Duration::from_millis(50)
-            } else {
-                Duration::from_secs(3)
-            };
-            match rx.recv_timeout(limit) {
-                Ok(tag) => tag,
-                Err(_) => {
-                    SEEN_HANG.store(true, std::sync::atomic::Ordering::SeqCst);
+            // on a helper thread under the watchdog (guard.rs): a sampler that blocks on the state lock is a
+            // dead-locked thread, seen within ~0.1 s
+            match verdict {
+                super::guard::Verdict::Done(tag) => tag,
+                _ => {
                     core.hung.set(true);
                     log(sh, Ev::Hang);
                     "m=hang".into()
@@ -733,26 +796,72 @@ fn sender_op(core: &Rc<RefCell<Core>>, sh: &Shared, op: &Op) -> String {
         }
         Op::Send(x) => {
             let before = sample(&core.metrics);
-            let (q0, t0) = (before("queue_length"), before("queue_full_truncated"));
+            let (q0, t0, b0) = (before("queue_length"), before("queue_full_truncated"), before("queue_full_blocked"));
             s.send(*x);
             let after = sample(&core.metrics);
-            let (q1, t1) = (after("queue_length"), after("queue_full_truncated"));
-            log(sh, Ev::Sent { x: *x, q0, t0, q1, t1 });
+            let (q1, t1, b1) = (after("queue_length"), after("queue_full_truncated"), after("queue_full_blocked"));
+            log(sh, Ev::Sent { x: *x, q0, t0, q1, t1, b0, b1 });
             "s".into()
         }
-        Op::Try(x) => match s.try_send(*x) {
-            Ok(()) => {
-                log(sh, Ev::TryOk(*x));
-                "t=ok".into()
-            }
-            Err(e) => match e.into_retryable() {
-                Some(y) => {
-                    log(sh, Ev::TryFull { x: *x, y });
-                    format!("t=full({})", y)
+        Op::Try(x) => {
+            let before = sample(&core.metrics);
+            let (t0, b0) = (before("queue_full_truncated"), before("queue_full_blocked"));
+            let r = s.try_send(*x);
+            let after = sample(&core.metrics);
+            let (t1, b1) = (after("queue_full_truncated"), after("queue_full_blocked"));
+            log(sh, Ev::Counters { t0, b0, t1, b1, bump: false });
+            match r {
+                Ok(()) => {
+                    log(sh, Ev::TryOk(*x));
+                    "t=ok".into()
                 }
-                None => "t=closed".into(),
-            },
-        },
+                Err(e) => match e.into_retryable() {
+                    Some(y) => {
+                        log(sh, Ev::TryFull { x: *x, y });
+                        format!("t=full({})", y)
+                    }
+                    None => "t=closed".into(),
+                },
+            }
+        }
+        Op::Bsend(k, x) => {
+            // ZERO timeout: one try_send, the blocked accounting, the item handed back — no wait anywhere
+            let before = sample(&core.metrics);
+            let (t0, b0) = (before("queue_full_truncated"), before("queue_full_blocked"));
+            let r = match k {
+                Bk::Sync => Some(emit_batcher::sync::blocking_send(s, *x, Duration::ZERO)),
+                Bk::Tokio => Some(emit_batcher::tokio::blocking_send(s, *x, Duration::ZERO)),
+                Bk::Async => {
+                    let mut fut = Box::pin(emit_batcher::tokio::send(s, *x, Duration::ZERO));
+                    let mut cx = Context::from_waker(Waker::noop());
+                    match fut.as_mut().poll(&mut cx) {
+                        Poll::Ready(r) => Some(r),
+                        Poll::Pending => None,
+                    }
+                }
+            };
+            let after = sample(&core.metrics);
+            let (t1, b1) = (after("queue_full_truncated"), after("queue_full_blocked"));
+            log(sh, Ev::Counters { t0, b0, t1, b1, bump: !matches!(r, Some(Ok(()))) });
+            match r {
+                None => format!("{}=pending", k.tag()),
+                Some(Ok(())) => {
+                    log(sh, Ev::TryOk(*x));
+                    format!("{}=ok", k.tag())
+                }
+                Some(Err(e)) => match e.into_retryable() {
+                    Some(y) => {
+                        log(sh, Ev::TryFull { x: *x, y });
+                        format!("{}=full({})", k.tag(), y)
+                    }
+                    None => format!("{}=closed", k.tag()),
+                },
+            }
+        }
+        Op::Q => {
+            let m = sample(&core.metrics);
+            format!("q={}/{}/{}", m("queue_length"), m("queue_full_truncated"), m("queue_full_blocked"))
+        }
         Op::Flush(w) => {
             log(sh, Ev::RegFlush(*w));
             let cb = Cb { id: *w, flush: true, sh: sh.clone(), ran: false };
@@ -862,7 +971,7 @@ impl World {
     /// returns the output token of the op
     fn op(&mut self, op: &Op) -> String {
         if self.core.borrow().hung.get() {
-            return "x|-/-".into(); // the state mutex is held for good: nothing can be done on this channel
+            return "x|-/-/-".into(); // the state mutex is held for good: nothing can be done on this channel
         }
         let tag: String = match op {
             Op::Send(_)
@@ -871,7 +980,9 @@ impl World {
             | Op::Empty(_)
             | Op::DropSender
             | Op::SampleTry(_)
-            | Op::SampleSend(_) => sender_op(&self.core, &self.sh, op),
+            | Op::SampleSend(_)
+            | Op::Bsend(..)
+            | Op::Q => sender_op(&self.core, &self.sh, op),
             Op::DropReceiver => match self.fut.take() {
                 None => "x".into(),
                 Some(f) => {
@@ -945,15 +1056,15 @@ impl World {
             out.push_str(&txt);
         }
         if self.core.borrow().hung.get() {
-            out.push_str("|-/-");
+            out.push_str("|-/-/-");
             return out;
         }
         let after = sample(&self.core.borrow().metrics);
-        let (q, t) = (after("queue_length"), after("queue_full_truncated"));
+        let (q, t, b) = (after("queue_length"), after("queue_full_truncated"), after("queue_full_blocked"));
         if q > self.cap {
             self.or.fail("c09-capacity");
         }
-        out.push_str(&format!("|{}/{}", q, t));
+        out.push_str(&format!("|{}/{}/{}", q, t, b));
         out
     }
 
@@ -1011,22 +1122,52 @@ impl Drop for World {
     }
 }
 
+/// every property is violated by a channel that wedges (accepted items are never delivered, a flush never
+/// completes, the worker makes no progress, a send blocks): each projection keeps its own
+const HANG_FAILS: &str = "c06-hang+c07-hang+c08-hang+c09-hang";
+
 fn run_batcher(line: &str) -> String {
     let Some(c) = parse_case(line) else {
         return "bad-case".into();
     };
-    let mut w = World::new(c.cap, c.sp, c.win);
-    let mut toks = Vec::new();
-    for op in &c.ops {
-        toks.push(w.op(op));
+    let nops = c.ops.len();
+    // the case is interpreted on a helper thread under the watchdog (guard.rs); the tokens are shared so that a
+    // case that wedges still prints how far it got
+    let toks: Arc<Mutex<Vec<String>>> = Arc::new(Mutex::new(Vec::new()));
+    let toks2 = toks.clone();
+    let verdict = super::guard::run(move || {
+        let mut w = World::new(c.cap, c.sp, c.win);
+        for op in &c.ops {
+            let t = w.op(op);
+            toks2.lock().unwrap().push(t);
+        }
+        let fin = w.finish();
+        (fin, w.or.fails.iter().copied().collect::<Vec<_>>().join("+"))
+    });
+    let mut toks = std::mem::take(&mut *toks.lock().unwrap());
+    match verdict {
+        super::guard::Verdict::Done((fin, fails)) => {
+            toks.push(fin);
+            let mut out = toks.join(" ");
+            if !fails.is_empty() {
+                out.push_str("\tFAIL:");
+                out.push_str(&fails);
+            }
+            out
+        }
+        super::guard::Verdict::Panicked => "panic".into(),
+        super::guard::Verdict::Hung => {
+            // the op that never returned, then everything that could not be run
+            if toks.len() < nops {
+                toks.push("hang|-/-/-".into());
+            }
+            while toks.len() < nops {
+                toks.push("x|-/-/-".into());
+            }
+            toks.push("F:hung".into());
+            format!("{}\tFAIL:{}", toks.join(" "), HANG_FAILS)
+        }
     }
-    toks.push(w.finish());
-    let mut out = toks.join(" ");
-    if !w.or.fails.is_empty() {
-        out.push_str("\tFAIL:");
-        out.push_str(&w.or.fails.iter().copied().collect::<Vec<_>>().join("+"));
-    }
-    out
 }
 
 // ------------------------------------------------------------------ generator
@@ -1038,6 +1179,8 @@ fn show_op(op: &Op) -> Sexp {
         Op::SampleTry(x) => Sexp::tagged("m", vec![n(x)]),
         Op::SampleSend(x) => Sexp::tagged("ms", vec![n(x)]),
         Op::Try(x) => Sexp::tagged("t", vec![n(x)]),
+        Op::Bsend(k, x) => Sexp::tagged(k.tag(), vec![n(x)]),
+        Op::Q => Sexp::tagged("q", vec![]),
         Op::Flush(w) => Sexp::tagged("f", vec![n(w)]),
         Op::Empty(w) => Sexp::tagged("e", vec![n(w)]),
         Op::DropSender => Sexp::tagged("ds", vec![]),
@@ -1055,7 +1198,27 @@ fn show_op(op: &Op) -> Sexp {
 /// gate is outstanding and what the last batch was, so that most receiver-side ops are enabled (an outcome when a
 /// batch is being processed, a wait release when waiting) and remainders relate to the batch; every op is legal
 /// anywhere — an op that is not enabled prints `x` on both sides — and a share of the ops is drawn blindly.
-fn gen_one(rng: &mut Rng, tier: Tier) -> String {
+/// What the generator has decided so far — shared with the watchdog so that a schedule whose interpretation wedges
+/// can still be emitted (up to and including the op that never returned: the reproducer).
+#[derive(Default)]
+struct Partial {
+    cap: usize,
+    sp: Vec<usize>,
+    win: Windows,
+    ops: Vec<Op>,
+}
+
+fn pick_bk(rng: &mut Rng) -> Bk {
+    match rng.below(3) {
+        0 => Bk::Sync,
+        1 => Bk::Tokio,
+        _ => Bk::Async,
+    }
+}
+
+/// `interpret = false`: the implementation is not executed at all (it wedged earlier in this generator run); the
+/// receiver-side ops are then drawn without knowing which gate is outstanding.
+fn gen_one(rng: &mut Rng, tier: Tier, interpret: bool, partial: &Mutex<Partial>) -> String {
     let cap = match rng.below(10) {
         0 => 1,
         1 => 2,
@@ -1093,7 +1256,12 @@ fn gen_one(rng: &mut Rng, tier: Tier) -> String {
         let mut next_win_w = 3000u64;
         let mut gen_ops = |rng: &mut Rng| -> Vec<Op> {
             (0..rng.range(1, 3))
-                .map(|_| match rng.below(20) {
+                .map(|_| match rng.below(24) {
+                    20 | 21 => {
+                        next_win_item += 1;
+                        Op::Bsend(pick_bk(rng), next_win_item)
+                    }
+                    22 | 23 => Op::Q,
                     0..=9 => {
                         next_win_item += 1;
                         Op::Send(next_win_item)
@@ -1133,7 +1301,12 @@ fn gen_one(rng: &mut Rng, tier: Tier) -> String {
     let mut gen_cb_ops = |rng: &mut Rng, cbs: &mut BTreeMap<u64, Vec<Op>>| -> Vec<Op> {
         let mut out = Vec::new();
         for _ in 0..rng.range(1, 3) {
-            out.push(match rng.below(24) {
+            out.push(match rng.below(30) {
+                24..=26 => {
+                    next_cb_item += 1;
+                    Op::Bsend(pick_bk(rng), next_cb_item)
+                }
+                27..=29 => Op::Q,
                 0..=7 => {
                     next_cb_item += 1;
                     Op::Send(next_cb_item)
@@ -1148,7 +1321,14 @@ fn gen_one(rng: &mut Rng, tier: Tier) -> String {
                     // a nested payload for the watcher registered from inside the callback
                     if rng.chance(1, 4) {
                         next_cb_item += 1;
-                        let mut inner = vec![if rng.bool() { Op::Try(next_cb_item) } else { Op::Send(next_cb_item) }];
+                        let mut inner = vec![match rng.below(5) {
+                            0 | 1 => Op::Try(next_cb_item),
+                            2 | 3 => Op::Send(next_cb_item),
+                            _ => Op::Bsend(pick_bk(rng), next_cb_item),
+                        }];
+                        if rng.chance(1, 3) {
+                            inner.push(Op::Q);
+                        }
                         if rng.chance(1, 3) {
                             inner.push(Op::DropSender);
                         }
@@ -1202,7 +1382,13 @@ fn gen_one(rng: &mut Rng, tier: Tier) -> String {
             }
         }
     }
-    let mut world = World::new(cap, sp.clone(), win.clone());
+    {
+        let mut p = partial.lock().unwrap();
+        p.cap = cap;
+        p.sp = sp.clone();
+        p.win = win.clone();
+    }
+    let mut world = if interpret { Some(World::new(cap, sp.clone(), win.clone())) } else { None };
     let mut next_item = 1u64;
     let mut next_w = 100u64;
     let mut ops: Vec<Op> = Vec::new();
@@ -1213,11 +1399,14 @@ fn gen_one(rng: &mut Rng, tier: Tier) -> String {
         } else if Some(i) == drop_r_at {
             Op::DropReceiver
         } else {
-            let (proc_, wait_) = {
-                let sh = world.sh.lock().unwrap();
-                (sh.batch_outstanding, sh.wait_outstanding)
+            let (proc_, wait_, gone) = match &world {
+                Some(world) => {
+                    let sh = world.sh.lock().unwrap();
+                    (sh.batch_outstanding, sh.wait_outstanding, world.fut.is_none())
+                }
+                // not interpreting: guess what the receiver is resting at
+                None => (rng.chance(1, 3), rng.chance(1, 3), false),
             };
-            let gone = world.fut.is_none();
             let idling = i < idle_len && !gone;
             let blind = !idling && rng.chance(1, 10);
             let rx_turn = !never_runs
@@ -1283,6 +1472,8 @@ fn gen_one(rng: &mut Rng, tier: Tier) -> String {
                             } else {
                                 Op::SampleSend(x)
                             }
+                        } else if rng.chance(1, 10) {
+                            Op::Bsend(pick_bk(rng), x)
                         } else if send_heavy || rng.chance(2, 3) {
                             Op::Send(x)
                         } else {
@@ -1292,7 +1483,11 @@ fn gen_one(rng: &mut Rng, tier: Tier) -> String {
                     5 => {
                         let x = next_item;
                         next_item += 1;
-                        Op::Try(x)
+                        if rng.chance(1, 3) {
+                            Op::Bsend(pick_bk(rng), x)
+                        } else {
+                            Op::Try(x)
+                        }
                     }
                     6 | 7 => {
                         next_w += 1;
@@ -1321,21 +1516,27 @@ fn gen_one(rng: &mut Rng, tier: Tier) -> String {
                     if let Some(ctx) = cb_ctx() {
                         ctx.cbs.borrow_mut().extend(extra.clone());
                     }
+                    partial.lock().unwrap().win.cbs.extend(extra.clone());
                     win.cbs.extend(extra);
                 }
             }
         }
+        partial.lock().unwrap().ops.push(op.clone());
         // advance the real code; remember the argument of the last on_batch call
-        let before = world.sh.lock().unwrap().log.len();
-        debug_assert_eq!(before, 0);
-        let tok = world.op(&op);
-        for part in tok.split(|c| c == ',' || c == '|') {
-            if let Some(b) = part.strip_prefix("c(").and_then(|p| p.strip_suffix(')')) {
-                last_call = b.split('.').filter_map(|x| x.parse().ok()).collect();
+        if let Some(world) = world.as_mut() {
+            let tok = world.op(&op);
+            for part in tok.split(|c| c == ',' || c == '|') {
+                if let Some(b) = part.strip_prefix("c(").and_then(|p| p.strip_suffix(')')) {
+                    last_call = b.split('.').filter_map(|x| x.parse().ok()).collect();
+                }
             }
         }
         ops.push(op);
     }
+    render_case(cap, &sp, &win, &ops)
+}
+
+fn render_case(cap: usize, sp: &[usize], win: &Windows, ops: &[Op]) -> String {
     Sexp::tagged(
         "b",
         vec![
@@ -1365,6 +1566,35 @@ fn gen_one(rng: &mut Rng, tier: Tier) -> String {
     .to_string()
 }
 
+/// The generator interprets each schedule on the real code while it builds it — under the watchdog (guard.rs): a
+/// schedule whose interpretation wedges is emitted as it stands, and after two of them the implementation is not
+/// executed any more (the remaining schedules are drawn blindly), so a wedged implementation costs the generator
+/// a fraction of a second, not the 30 minutes `check` would wait.
 fn gen_batcher(rng: &mut Rng, tier: Tier, n: usize) -> Vec<String> {
-    (0..n).map(|_| gen_one(rng, tier)).collect()
+    let mut out = Vec::with_capacity(n);
+    let mut wedged = 0;
+    for _ in 0..n {
+        let partial: Arc<Mutex<Partial>> = Arc::new(Mutex::new(Partial::default()));
+        if wedged >= 2 {
+            out.push(gen_one(rng, tier, false, &partial));
+            continue;
+        }
+        let (mut r2, p2) = (rng.clone(), partial.clone());
+        match super::guard::run(move || {
+            let line = gen_one(&mut r2, tier, true, &p2);
+            (line, r2)
+        }) {
+            super::guard::Verdict::Done((line, r)) => {
+                *rng = r;
+                out.push(line);
+            }
+            _ => {
+                wedged += 1;
+                rng.next();
+                let p = partial.lock().unwrap();
+                out.push(render_case(p.cap.max(1), &p.sp, &p.win, &p.ops));
+            }
+        }
+    }
+    out
 }
